@@ -199,7 +199,7 @@ func marshalBattery(s stackage.Stack) (where, msg, site string) {
 
 func c16Tier(tier string) int {
 	if tier == "thorough" {
-		return 5000000
+		return 20000000
 	}
 	return 400000
 }
